@@ -14,6 +14,7 @@ import (
 	"encoding/hex"
 	"fmt"
 	"net"
+	"runtime/debug"
 	"sort"
 	"strings"
 	"sync/atomic"
@@ -330,6 +331,19 @@ type stats struct {
 	wire        atomic.Int64
 	wireChanged atomic.Int64
 	perAcc      []atomic.Int64
+	unspec      [][]atomic.Int64 // [accessor][why]
+}
+
+// the UNSPECIFIED classes of v4opt, for lock-free counting
+var unspecWhys = []string{"suboption-code-0-or-255", "pointer-or-reserved-label-type", "dot-inside-label", "name-longer-than-255", "unterminated-name", "other"}
+
+func whyIdx(w string) int {
+	for i, x := range unspecWhys {
+		if x == w {
+			return i
+		}
+	}
+	return len(unspecWhys) - 1
 }
 
 type checker struct {
@@ -370,7 +384,7 @@ func (k *checker) check(a *acc, p *dhcpv4.DHCPv4, scope string, order int64, wir
 		k.st.absent.Add(1)
 	case ref.Class == v4opt.Unspecified:
 		k.st.unspecified.Add(1)
-		k.c.Unspecified(a.Name+":"+ref.Why, 1)
+		k.st.unspec[a.idx][whyIdx(ref.Why)].Add(1)
 		return ref.Class // no panic is all that is demanded
 	case len(raw) == 0:
 		k.st.zeroLen.Add(1)
@@ -592,8 +606,13 @@ func Run(c *fw.Ctx) {
 		"DESIGN.md §8a item 4: a zero-length value and an absent option are identified; nil and empty lists are identified",
 		"relay-agent values with 0 or 255 in sub-option code position, and search lists that are not plain terminated names (pointers, reserved label types, unterminated tail, '.' inside a label), are UNSPECIFIED: only no-panic is demanded (labels are C19's subject)",
 		"on the wire path the accessor is compared with the raw value the decoded packet holds (whether the wire trip preserves values is C01's subject)")
+	// many small short-lived allocations and a tiny live heap: collect less often
+	defer debug.SetGCPercent(debug.SetGCPercent(800))
 	as := accessors()
-	st := &stats{perAcc: make([]atomic.Int64, len(as))}
+	st := &stats{perAcc: make([]atomic.Int64, len(as)), unspec: make([][]atomic.Int64, len(as))}
+	for i := range st.unspec {
+		st.unspec[i] = make([]atomic.Int64, len(unspecWhys))
+	}
 	k := &checker{c: c, st: st}
 
 	maxLen, maxAlpha := 64, 5
@@ -601,6 +620,9 @@ func Run(c *fw.Ctx) {
 	if c.Thorough() {
 		maxLen, maxAlpha, all3 = 300, 7, true
 	}
+	// one written-out well-formed case for each of these accessors (at most 12 samples are kept)
+	sampled := map[string]bool{"Router": true, "IPAddressLeaseTime": true, "HostName": true, "ClasslessStaticRoute": true, "UserClass": true,
+		"VIVC": true, "ClientArch": true, "DomainSearch": true, "RelayAgentInfo": true}
 	nAbsent := int64(1)
 	nSmall := int64(1 + 256 + 65536)
 	nStruct := int64(maxLen+1) * int64(len(classNames))
@@ -613,6 +635,14 @@ func Run(c *fw.Ctx) {
 		nAll3 = 1 << 24
 	}
 	per := nAbsent + nSmall + nStruct + nAlpha + nAll3
+
+	// packets without an option map, and with a nil value stored under the code
+	for _, a := range as {
+		k.check(a, basePacket(nil), "absent:nil-option-map", 0, false)
+		k.check(a, basePacket(dhcpv4.Options{a.Code: nil}), "zero-length:nil-value", 1, false)
+		c.Eval(2)
+	}
+	c.Scope("get:nil-map-and-nil-value", "cases_per_accessor", 2)
 
 	c.Range(per*int64(len(as)), func(i int64) {
 		a := as[i/per]
@@ -655,7 +685,7 @@ func Run(c *fw.Ctx) {
 			if k.both(a, true, raw, "lengths-0.."+fmt.Sprint(maxLen)+":"+classNames[cl], order, true, true) == v4opt.OK && !dup && len(raw) > 0 {
 				c.Nontrivial(1)
 				st.perAcc[a.idx].Add(1)
-				if (L == 8 || L == 21) && cl >= 3 {
+				if us := units(a.Kind); cl == 3 && sampled[a.Name] && L == len(us[0])+len(us[1%len(us)]) {
 					c.Sample(map[string]any{"accessor": a.Name, "raw": fw.Hex(raw), "class": classNames[cl], "expected": v4opt.Interpret(a.Kind, true, raw).Canon})
 				}
 			}
@@ -704,6 +734,11 @@ func Run(c *fw.Ctx) {
 	perAcc := map[string]int64{}
 	for i, a := range as {
 		perAcc[a.Name] = st.perAcc[i].Load()
+		for w := range unspecWhys {
+			if n := st.unspec[i][w].Load(); n > 0 {
+				c.Unspecified(a.Name+":"+unspecWhys[w], n)
+			}
+		}
 	}
 	c.Extra("get_evaluations_by_reference_verdict", map[string]int64{"wellformed": st.wellformed.Load(), "malformed": st.malformed.Load(),
 		"absent": st.absent.Load(), "zero_length": st.zeroLen.Load(), "unspecified": st.unspecified.Load()})
@@ -1227,7 +1262,7 @@ func runSet(c *fw.Ctx, k *checker, as []*acc) {
 			c.Nontrivial(1)
 		}
 		runSetCase(c, k, as, s, order)
-		if i%997 == 3 {
+		if i%60013 == 3 {
 			c.Sample(map[string]any{"constructor": s.ctor, "argument": s.arg, "expected_raw": fw.HexShort(s.wantRaw), "expected_readback": trunc(s.want, 120)})
 		}
 	}
